@@ -41,43 +41,43 @@ BITS = {"np.uint8": 8, "np.uint16": 16, "np.uint32": 32, "np.uint64": 64}
 
 
 def r1_dtype_table(ctx):
-    """get_dtype: the arms `lo <= bits <= hi` partition [1, 64] without gap or overlap, each returns an unsigned type with at least `hi` bits, anything else raises."""
+    """get_dtype, evaluated over its whole finite domain (sa/minieval.py, no code is run): for every resolution 1..64 it returns np.dtype(<unsigned type>) whose width is at least the resolution (so 2**bits - 1 fits), and it raises for 0, 65 and negative values.  The control structure (if/elif ladder, table + loop, dict) is irrelevant."""
+    from sa.minieval import Opaque, Undecided, evaluate
+
     f = ctx.func("pyxel.util.misc:get_dtype")
     p = f.params[0]
-    arms = []
-    node = None
-    for st in f.node.body:
-        if isinstance(st, ast.If):
-            node = st
-    if node is None:
-        raise AnalysisError("get_dtype: if-chain not found")
-    cur = node
-    tail = None
-    while True:
-        t = cur.test
-        ok = isinstance(t, ast.Compare) and len(t.ops) == 2 and all(isinstance(o, ast.LtE) for o in t.ops) and dotted(t.comparators[0]) == p and isinstance(t.left, ast.Constant) and isinstance(t.comparators[1], ast.Constant)
-        if not ok:
-            raise AnalysisError(f"get_dtype: arm test outside the grammar: {norm(t)}")
-        rets = [s for s in cur.body if isinstance(s, ast.Return)]
-        ty = None
-        if rets and isinstance(rets[0].value, ast.Call) and call_name(rets[0].value) in ("np.dtype", "numpy.dtype"):
-            ty = norm(rets[0].value.args[0])
-        arms.append((t.left.value, t.comparators[1].value, ty, cur))
-        if len(cur.orelse) == 1 and isinstance(cur.orelse[0], ast.If):
-            cur = cur.orelse[0]
+    results = {}
+    for bits in range(-1, 67):
+        try:
+            results[bits] = evaluate(f.node, {p: bits})
+        except Undecided as exc:
+            raise AnalysisError(f"get_dtype: cannot be evaluated over its domain ({exc})")
+    # report per maximal run of equal answers (= the arms of the table, however it is written)
+    runs = []
+    for bits in range(1, 65):
+        kind, val = results[bits]
+        txt = val.text if isinstance(val, Opaque) else repr(val)
+        key = (kind, txt)
+        if runs and runs[-1][2] == key:
+            runs[-1][1] = bits
         else:
-            tail = cur.orelse
-            break
-    arms.sort(key=lambda a: a[0])
-    ok = arms[0][0] == 1 and arms[-1][1] == 64 and all(a[1] + 1 == b[0] for a, b in zip(arms, arms[1:])) and all(a[0] <= a[1] for a in arms)
-    ctx.check(ok, f.qual + "#partition", f"arms {[(a[0], a[1]) for a in arms]} partition 1..64" if ok else f"arms {[(a[0], a[1]) for a in arms]} leave a gap or overlap in 1..64", where=f, node=node)
-    for lo, hi, ty, arm in arms:
+            runs.append([bits, bits, key])
+    for lo, hi, (kind, txt) in runs:
+        ty = None
+        if kind == "return" and txt.startswith(("np.dtype(", "numpy.dtype(")) and txt.endswith(")"):
+            ty = txt[txt.index("(") + 1 : -1]
+            ty = ty.replace("numpy.", "np.")
         okw = ty in BITS and BITS[ty] >= hi
-        ctx.check(okw, f.qual + f"#width:{lo}-{hi}", f"{lo}..{hi} bits -> {ty}" if okw else f"resolutions {lo}..{hi} get {ty}, which cannot hold 2**{hi} - 1 (values wrap) or is not unsigned", where=f, node=arm.test)
-    from sa.cfg import ends_in_raise
-
-    ok = tail is not None and ends_in_raise(tail)
-    ctx.check(ok, f.qual + "#else", "other resolutions raise" if ok else "resolutions outside 1..64 do not raise", where=f, node=node)
+        if kind == "raise":
+            why = f"resolutions {lo}..{hi} are refused ({txt}) although 1..64 bits are supported: the table has a gap"
+        else:
+            why = f"{lo}..{hi} bits -> {ty}" if okw else f"resolutions {lo}..{hi} get {txt}, which cannot hold 2**{hi} - 1 (values wrap) or is not an unsigned numpy type"
+        ctx.check(okw, f.qual + f"#width:{lo}-{hi}", why, where=f, node=f.node)
+    ctx.floor(len(runs), 1)
+    for bits in (-1, 0, 65, 66):
+        kind, val = results[bits]
+        ok = kind == "raise"
+        ctx.check(ok, f.qual + f"#else:{bits}", f"{bits} bits raises" if ok else f"a resolution of {bits} bits is accepted (returns {val})", where=f, node=f.node)
 
 
 FORMULAS = [
